@@ -26,7 +26,17 @@ func init() {
 		t := time.Now()
 		exploreNoSleep = os.Getenv("NOSLEEP") != ""
 		exploreNoCache = os.Getenv("NOCACHE") != ""
-		res := exploreHarness(h, exploreCfg{bound: bound, deadline: time.Now().Add(time.Hour), maxExecs: max})
+		cfg := exploreCfg{bound: bound, deadline: time.Now().Add(time.Hour), maxExecs: max}
+		if sp := os.Getenv("SHARED"); sp != "" {
+			os.Remove(sp)
+			tb, err := vsched.OpenSharedTable(sp, 22)
+			if err != nil {
+				panic(err)
+			}
+			cfg.shared = tb
+			defer os.Remove(sp)
+		}
+		res := exploreHarness(h, cfg)
 		if kf := os.Getenv("KEYFILE"); kf != "" {
 			f, _ := os.Create(kf)
 			for _, k := range res.TraceKeys {
